@@ -92,6 +92,16 @@ def _install_ins():
         before = [c.tag for c in self if isinstance(c.tag, str)]
         res = orig(self, elm, *tagnames)
         try:
+            if elm.getparent() is not self:  # the child went somewhere else (e.g. next to a descendant named like a successor)
+                SINK.count("M-INS:judged")
+                host = elm.getparent()
+                SINK.violation(
+                    "C10",
+                    "inserted-outside-parent:%s>%s" % (xsdkit.pfx_tag(self.tag), xsdkit.pfx_tag(elm.tag)),
+                    "insert_element_before(<%s>, successors %s) on <%s> left the child inside <%s>, not among the parent's children"
+                    % (xsdkit.pfx_tag(elm.tag), list(tagnames), xsdkit.pfx_tag(self.tag), xsdkit.pfx_tag(host.tag) if host is not None else None),
+                )
+                return res
             types = _candidate_types(self.tag)
             if not types:
                 SINK.count("M-INS:parent-tag-without-schema-type")
